@@ -259,7 +259,7 @@ func TestMCRace_C23(t *testing.T) {
 func c23Main(t *testing.T) {
 	c := verifmc.Start(t, "C23", "model_checking")
 	defer c.Finish()
-	c.SetRule("BFS over all sequences of {queue(x), store(x) for 4 bodies of 3 payloads (one payload in two differently signed bodies), retrieve(0|1|2|255), remove({p1}|{p2}|{p1,p2,p3})} on the real cache DB; after every call the returned list and the bodies (CacheGetTransaction) are compared with a token model (body map, queued flag, ordered queue tokens); plus concurrent scenarios explored over all interleavings up to the preemption bound and checked for linearisability")
+	c.SetRule("BFS over all sequences of {queue(x), store(x) for 4 bodies of 3 payloads (one payload in two differently signed bodies), retrieve(0|1|2|255), remove({p1}|{p2}|{p1,p2,p3})} on the real cache DB; after every call the returned list and the bodies (CacheGetTransaction) are compared with a token model (body map, queued flag, ordered queue tokens); plus concurrent scenarios explored over all interleavings up to the preemption bound and checked for linearisability; plus the sizes product on the real cache DB against the same model over n payloads: one CacheRemoveTransactions call for every list length in {0,1,2,100,101,102,103,150,201,202,203,255,256} x {all queued, all stored only, every other queued, queued/stored/absent by turns, none stored} x {drain with retrieve(255), queue all again then drain} with sentinels outside the list, and one CacheRetrieveTransactions(limit) for limit in {0,1,2,100,101,255} x queue length {0,1,150,300} x {plain, every third body removed, removed ones queued twice}")
 	c.Assume("queue order = call order (vtime shim makes time.Now strictly increasing); Badger SSI; TTL expiry (2 h) is outside the explored time")
 	if !verifmc.FreeRunning() {
 		b := &verifmc.BFS[*c23State]{
@@ -314,6 +314,8 @@ func c23Main(t *testing.T) {
 		}
 		st, tr, _, _ := b.Run()
 		c.Require(st > 200 && tr > 2000, "vacuous sequential exploration %d/%d", st, tr)
+		// list lengths / limits around the internal batch boundaries (mc_c23_sizes_test.go)
+		c23Sizes(c)
 	}
 
 	// ---- concurrent callers ----
